@@ -368,13 +368,14 @@ func (b *Board) CanEnPassant(to Square) bool {
 	shift := shifts[b.STM]
 	king := b.Pieces[King] & them
 	dest := BitBoard(1) << (to - shift)
+	orig := BitBoard(1) << (to - 2*shift) // the pusher is still on its origin square
 
 	// pawns that are able to en-passant
 	ables := ((target & ^AFileBB >> 1) | (target & ^HFileBB << 1)) & b.Pieces[Pawn] & them
 	for ; ables != 0; ables &= ables - 1 {
 		able := ables & -ables
 		// remove the pawns from the occupancy
-		occ := (b.Colors[White] | b.Colors[Black] | dest) &^ (target | able)
+		occ := (b.Colors[White] | b.Colors[Black] | dest) &^ (target | able | orig)
 		if !b.IsAttacked(b.STM, occ, king) {
 			return true
 		}
